@@ -10,4 +10,5 @@ import (
 	_ "verif/harness/checks/c10"
 	_ "verif/harness/checks/c16"
 	_ "verif/harness/checks/c17"
+	_ "verif/harness/checks/c18"
 )
